@@ -58,7 +58,7 @@ CHECKS = {
    category="exploration",
    text="Every PartialDispatcher.partial_call made while sessions execute generated programs (all interpretation settings) is monitored: from the dispatcher's registered signatures alone the set of matching patterns is recomputed and the rule that runs must belong to a pattern at least as specific as every other matching one. Sessions interleave the work with dispatch-cache drops, lru_cache drops, collections (which kill and re-create parametrised classes), late registration of unrelated rules and replays, and the map (dispatcher, canonical argument-type tuple) -> rule must stay a function within the run, across sessions that use programs in a different first-use order, and across hash worlds (merged by the runner). Each dispatcher's registry is rebuilt twice in seeded permuted registration order and must resolve every observed tuple to the same rule; argument tuples are synthesised for registered term patterns by specialising positions to pool types. A user-level registry with tuple / variadic / union / frozenset / catch-all patterns is dispatched in seeded orders, and every pair of its patterns (both registration orders) plus seeded subsets form small registries whose winner is checked against an executable reference reading of the patterns (member(): is the argument in the pattern; ref_sub(): is one pattern below another): the selected rule must contain the arguments and no matching pattern may be strictly more specific. deep_type of seeded containers (including inhomogeneous ones) must be a type the container is a member of. On the reached type pool plus synthesised unions and containers of unions: reflexivity on all types and transitivity on all triples (boolean matrix product) for issubclass-as-used-for-matching and for deep_issubclass; every visited term is a deep-instance of its own precise type and of every one-parameter generalisation; deep_type(frozenset) is independent of element order.",
    design_ref="DESIGN.md section 6 (C16)",
-   note="Specificity = multipledispatch.conflict.supercedes; matching = issubclass on wrapped types. Synthesised tuples are generated for interpretation registries (patterns over a term's arguments), not for op dispatchers on raw arrays, where numpy scalar types inherit from both float and numpy.generic.",
+   note="Specificity of one signature over another is judged at the arity of the call: variadic tails are expanded and positions compared with issubclass (equal to multipledispatch.conflict.supercedes for fixed arities); matching = issubclass on wrapped types. Synthesised tuples are generated for interpretation registries (patterns over a term's arguments), not for op dispatchers on raw arrays, where numpy scalar types inherit from both float and numpy.generic.",
    technique="deterministic simulation: monitored dispatch under seeded cache-drop/GC/late-registration histories; cross-world and permuted-registration agreement; order axioms on reached types"),
  "C20": dict(
    engine="immut",
